@@ -192,7 +192,7 @@ func permutations(xs []string, f func([]string)) {
 
 func runC11(r *core.Run) {
 	r.Level = "exploration"
-	r.Rule = "all Go maps with <= 3 entries over a 12-string menu (empty, 1-char, '=', ';', NUL, 0xff, 255 bytes, multi-byte UTF-8) through GoMapToMapping (repeated 4x/16x for iteration order) and through ValuesToMapping in EVERY insertion order (n<=3; n=4,5 for selected key sets); size-limit family with total payload 65,520..65,550 and strings of 254/255/256 bytes; byte-walk of ReadMapping; every insertion order also as WIRE order through ReadMapping (error-free parse => Data() == input, twice). Oracle: bytes == independent reference encoding of the key-sorted map, size field, clean re-parse, same Go map, reject beyond limits. non-trivial = distinct encodings produced within limits and checked, plus distinct limit cases"
+	r.Rule = "all Go maps with <= 3 entries over a 12-string menu (empty, 1-char, '=', ';', NUL, 0xff, 255 bytes, multi-byte UTF-8) and all pairs and triples of a 13-key encoding-sensitive menu (invalid UTF-8, U+E000 vs U+10000, U+FFFD, case, NFC vs NFD) through GoMapToMapping (repeated 4x/16x for iteration order) and through ValuesToMapping in EVERY insertion order (n<=3; n=4,5 for selected key sets); size-limit family with total payload 65,520..65,550 and strings of 254/255/256 bytes; byte-walk of ReadMapping; every insertion order also as WIRE order through ReadMapping (error-free parse => Data() == input, twice). Oracle: bytes == independent reference encoding of the key-sorted map, size field, clean re-parse, same Go map, reject beyond limits. non-trivial = distinct encodings produced within limits and checked, plus distinct limit cases"
 	r.Assume("GoMapToMapping's dependence on Go map iteration order cannot be steered; every insertion order of the same pairs is enumerated through ValuesToMapping instead, repeats are a secondary guard")
 	n := len(c11Menu)
 	reps := 4
@@ -249,6 +249,25 @@ func runC11(r *core.Run) {
 		}
 		permutations(append([]string(nil), ks...), func(o []string) { c11Check(r, m, o, 1) })
 		c11Check(r, m, nil, 32)
+	}
+	// encoding-sensitive keys: byte strings whose order differs between comparators (bytes / UTF-16 code units / runes
+	// with invalid bytes replaced / case folding / Unicode normalisation). Keys are byte strings and the canonical
+	// order is the byte order: every pair and triple of the menu in every insertion order, and through the Go map
+	// with repeats (a comparator under which two distinct keys tie leaves the order to map iteration).
+	{
+		enc := []string{"\xfe", "\xff", "\x80", "\xc2\x80", "\uE000", "\uFFFD", "\U00010000", "a\xff", "a\xfe", "Z", "a", "\u00e9", "e\u0301"}
+		for i := 0; i < len(enc); i++ {
+			for j := i + 1; j < len(enc); j++ {
+				m := map[string]string{enc[i]: "1", enc[j]: "2"}
+				permutations([]string{enc[i], enc[j]}, func(o []string) { c11Check(r, m, o, 1) })
+				c11Check(r, m, nil, 16)
+				for k := j + 1; k < len(enc); k++ {
+					m3 := map[string]string{enc[i]: "1", enc[j]: "2", enc[k]: "3"}
+					permutations([]string{enc[i], enc[j], enc[k]}, func(o []string) { c11Check(r, m3, o, 1) })
+					c11Check(r, m3, nil, 4)
+				}
+			}
+		}
 	}
 	// size-limit family: 127 pairs of 255/255 (514 bytes each = 65278) + one adjustable pair
 	baseMap := func() map[string]string {
